@@ -2,6 +2,7 @@
 
 from __future__ import annotations
 
+import functools
 import itertools
 import json
 
@@ -13,18 +14,23 @@ PROPERTY_ID = "C14"
 LEVEL = "exploration"
 RULE = ("Enumeration: every string of length <= 3 (quick) / <= 4 (thorough) over 20 class representatives (one name "
         "per class plus CAL_domain, SAT, Thioesterase, Epimerization, PKS_KR, nMT, LPG_synthase_C, Beta_elim_lyase, "
-        "PKS_PP, Trans-AT_docking, and PKS_KS with no / Trans-AT / Iterative subtype) as one gene; every pair "
-        "(upstream string, downstream string) over 13 representatives with bounded lengths as two adjacent genes "
-        "(both strands forward, both reverse, mixed), directly and through generate_domains. Random: Hypothesis "
-        "strings of length 0-14 over all 72 profile names with KS subtypes (none, the five ksdomains.hmm names, a "
-        "nested transATor name, two ambiguous internal hits), start positions increasing with equal-start ties and "
-        "shuffled input order as classes; a mixture of uniform strings, strings made of mutated module templates, "
-        "and for gene pairs a module template cut in two at a random point (head | tail, optional lone KR after the "
-        "tail) so that head/tail pairs are mergeable by construction. A case is non-trivial when the gene has >= 2 "
-        "modules, a module with two carrier proteins (look-ahead case), or - for pairs - a merge is attempted "
-        "(same strand, both genes have modules, head incomplete); distinct = sha1 of the canonical spec.")
+        "PKS_PP, PCP, Trans-AT_docking, and PKS_KS with no / Trans-AT / Iterative subtype) as one gene, plus the "
+        "documented double-carrier string CP,CP,LPG_synthase_C,Beta_elim_lyase with every symbol before, inside and "
+        "after it; every pair (upstream string, downstream string) over 13 representatives with lengths "
+        "(<=1,<=3),(<=2,<=1) quick / (<=2,<=3),(<=3,<=1) thorough as two adjacent genes (both forward; both reverse "
+        "and mixed strands for the short ones), every module template cut in two at every point with six "
+        "continuations, directly through combine_modules and (total length <= 3 / <= 4) through generate_domains. "
+        "Random: Hypothesis strings of length 0-14 over all 60 profile names with KS subtypes (none, the five "
+        "ksdomains.hmm names, a nested transATor name, two ambiguous internal hits), start positions increasing "
+        "with equal-start ties and shuffled input order as classes; a mixture of uniform strings, strings made of "
+        "mutated module templates, and for gene pairs / chains of 2-4 genes a module template cut in two at a random "
+        "point (head | tail, optional lone KR after the tail) so that head/tail pairs are mergeable by "
+        "construction. A case is non-trivial when the gene has >= 2 modules or a module with two carrier proteins "
+        "(look-ahead case), or - for pairs - a merge is attempted (same strand, both genes have modules, head "
+        "incomplete), or - through generate_domains - a multi-gene module or >= 2 modules result; distinct = sha1 "
+        "of the canonical spec (enumerated cases are distinct by construction).")
 ASSUMPTIONS = [
-    "the domain alphabet and its classes are the frozen copy of CLASSIFICATIONS in this file (72 names); names added "
+    "the domain alphabet and its classes are the frozen copy of CLASSIFICATIONS in this file (60 names); names added "
     "to antiSMASH later are not generated",
     "only PKS_KS domains carry internal (subtype) hits, as in find_subtypes",
     "the order of a gene's domains is the stable sort by query_start of the list handed to build_modules_for_cds",
@@ -61,7 +67,7 @@ CLASS_OF = {name: key for key, group in CLASSES.items() for name in group}
 DOUBLE_CASE = ("LPG_synthase_C", "Beta_elim_lyase")
 FUSED_STARTERS = set(ADENYLATIONS) | set(ACYLTRANSFERASES) | {"Interface"}
 KS_SUBTYPES = ("Trans-AT-KS", "Modular-KS", "Iterative-KS", "Hybrid-KS", "Enediyne-KS")
-MONOMER_BASES = ("", "mal", "mmal", "emal", "mxmal", "pk", "X", "ala", "AHBA")
+MONOMER_BASES = ("", "mal", "mmal", "pk", "ala", "AHBA")
 
 
 def pure_starter(name: str) -> bool:
@@ -363,7 +369,7 @@ def _flags(module) -> dict:
         "pks": module.is_pks(), "nrps": module.is_nrps(), "coa_ligase": module.is_coa_ligase(),
         "start": module.start, "end": module.end,
         "monomers": [module.get_monomer(base) for base in MONOMER_BASES],
-        "monomers_fallback": [module.get_monomer(base, fallback=True) for base in MONOMER_BASES],
+        "monomers_fallback": [module.get_monomer(base, fallback=True) for base in ("", "pk")],
         "labels": [[comp.locus, comp.label, comp.classification, comp.subtypes] for comp in module.components],
     }
 
@@ -387,7 +393,7 @@ def _check_reload(module, where: str) -> None:
         raise Violation("reload_differs", {"where": where, "module": _describe(module), "differences": "domains"})
 
 
-def _check_module(module, comps: list, first_in_cds: bool, where: str) -> dict:
+def _check_module(module, comps: list, first_in_cds: bool, where: str, reload: bool = True) -> dict:
     """ layout rules + completeness + reload of one real module whose reference components are comps """
     if not comps:
         raise Violation("empty_module", {"where": where})
@@ -408,11 +414,12 @@ def _check_module(module, comps: list, first_in_cds: bool, where: str) -> dict:
                                               "expected": ref.complete(first_in_cds), "first_in_cds": first_in_cds})
     if trans_at != ref.trans_at():
         raise Violation("trans_at_mismatch", {"where": where, "module": _describe(module), "reported": trans_at})
-    _check_reload(module, where)
+    if reload:
+        _check_reload(module, where)
     return {"complete": complete, "trans_at": trans_at, "double": ref.extra_carriers > 0, "ref": ref}
 
 
-def _check_gene_modules(gene: dict, index: int, domains: list, modules: list) -> dict:
+def _check_gene_modules(gene: dict, index: int, domains: list, modules: list, reload: bool = True) -> dict:
     """ partition / order / layout / needless splits / reload for the modules of one gene """
     name = gene["name"]
     keys = {id(dom): [index, i] for i, dom in enumerate(domains)}
@@ -432,7 +439,7 @@ def _check_gene_modules(gene: dict, index: int, domains: list, modules: list) ->
     per_module = []
     for k, module in enumerate(modules):
         comps = _as_ref_comps(module, keys)
-        info = _check_module(module, comps, k == 0, f"{name}[{k}]")
+        info = _check_module(module, comps, k == 0, f"{name}[{k}]", reload)
         with code_under_test("flags_total"):
             saved_first = module.to_json()["first_in_cds"]
         if saved_first != (k == 0):
@@ -497,13 +504,20 @@ def check_gene(spec: dict) -> dict:
 
 # --------------------------------------------------------------------------- gene pairs
 
+@functools.lru_cache(maxsize=64)
+def _pair_cds(index: int, strand: int, name: str):
+    """ a real CDS feature for CDSModuleInfo (never modified by the code under test, so shared between cases) """
+    from vlib.build import make_cds
+    start = 100 + 5000 * index
+    return make_cds({"parts": [[start, start + 3000]], "strand": strand}, name)
+
+
 def _snapshot(modules: list) -> list:
     return [(module, [id(comp.domain) for comp in module.components]) for module in modules]
 
 
 def check_pair(spec: dict) -> dict:
     from antismash.detection.nrps_pks_domains.module_identification import CDSModuleInfo, combine_modules
-    from vlib.build import make_cds
 
     genes = spec["genes"]
     strands = spec["strands"]
@@ -511,12 +525,11 @@ def check_pair(spec: dict) -> dict:
     keys = {}
     for index, (domains, _) in enumerate(built):
         keys.update({id(dom): [index, i] for i, dom in enumerate(domains)})
-    summaries = [_check_gene_modules(gene, index, *built[index]) for index, gene in enumerate(genes)]
+    # (the saved form of single-gene modules is the business of the gene subchecks; here only of merged modules)
+    summaries = [_check_gene_modules(gene, index, *built[index], reload=False) for index, gene in enumerate(genes)]
     infos = []
     for index, gene in enumerate(genes):
-        start = 100 + 5000 * index
-        cds = make_cds({"parts": [[start, start + 3000]], "strand": strands[index]}, gene["name"])
-        infos.append(CDSModuleInfo(cds, built[index][1]))
+        infos.append(CDSModuleInfo(_pair_cds(index, strands[index], gene["name"]), built[index][1]))
     prev_idx, cur_idx = pair_roles(spec)
     previous, current = infos[prev_idx], infos[cur_idx]
     before_prev, before_cur = _snapshot(previous.modules), _snapshot(current.modules)
@@ -732,6 +745,30 @@ def check_pipeline(spec: dict) -> dict:
                     feature.is_iterative()) != (module.is_complete(), module.is_starter_module(),
                                                 module.is_termination_module(), module.is_iterative()):
                 raise Violation("pipeline_feature_flags", {"module": _describe(module)})
+    # the module features survive their own saved (Biopython feature) form
+    from antismash.common.secmet.features import Module as ModuleFeature
+    for feature in features:
+        names = [dom.domain_id for dom in feature.domains]
+        try:
+            bio = feature.to_biopython()
+            again = ModuleFeature.from_biopython(bio[0], record=record)
+            rebuilt = again.to_biopython()
+        except Exception as err:  # pylint: disable=broad-except
+            raise Violation("reload_refused", {"where": "module feature", "domains": names,
+                                               "exception": type(err).__name__, "message": str(err)[:300]}) from err
+        same = (len(bio) == len(rebuilt) == 1 and dict(rebuilt[0].qualifiers) == dict(bio[0].qualifiers)
+                and str(rebuilt[0].location) == str(bio[0].location)
+                and [dom.domain_id for dom in again.domains] == names
+                and again.parent_cds_names == feature.parent_cds_names
+                and again.module_type == feature.module_type
+                and (again.is_complete(), again.is_starter_module(), again.is_final_module(), again.is_iterative())
+                == (feature.is_complete(), feature.is_starter_module(), feature.is_final_module(),
+                    feature.is_iterative()))
+        if not same:
+            raise Violation("reload_differs", {"where": "module feature", "domains": names,
+                                               "qualifiers": {k: [v, rebuilt[0].qualifiers.get(k)]
+                                                              for k, v in bio[0].qualifiers.items()
+                                                              if rebuilt[0].qualifiers.get(k) != v}})
     classes = [f"genes_{len(genes)}", "multi_gene_module" if multi else "no_multi_gene_module",
                "strands_" + "".join("+" if s == 1 else "-" for s in spec["strands"])]
     if any(not gene["doms"] for gene in genes):
@@ -830,12 +867,13 @@ def strings(symbols, max_len: int, min_len: int = 0):
 
 def enum_genes(max_len: int):
     def cases():
+        after_len = 2 if max_len >= 4 else 1
         for tokens in strings(GENE_SYMBOLS, max_len):
             yield {"gene": tokens_gene(tokens, "g0")}
         # the documented double-carrier case with every symbol before, between and after
         core = ("CP", "CP", "LPG", "BEL")
         for before in strings(GENE_SYMBOLS, 1):
-            for after in strings(GENE_SYMBOLS, 2):
+            for after in strings(GENE_SYMBOLS, after_len):
                 yield {"gene": tokens_gene(before + core + after, "g0"), "kind": "double"}
             for pos in range(1, 4):
                 for extra in GENE_SYMBOLS:
@@ -845,7 +883,7 @@ def enum_genes(max_len: int):
 
 def _pair_shapes(thorough: bool):
     """ (max upstream length, max downstream length) blocks; the union is enumerated without repeats """
-    return [(2, 3), (3, 2)] if thorough else [(1, 3), (2, 2)]
+    return [(2, 3), (3, 1)] if thorough else [(1, 3), (2, 1)]
 
 
 def _in_shape(up, down, shape) -> bool:
@@ -917,109 +955,107 @@ TAILS = (("CP",), ("CP", "TE"), ("CP", "TE", "KR"), ("CP", "E", "KR"), ("A", "CP
 
 
 # --------------------------------------------------------------------------- random strategies
+# (few, flat draws: Hypothesis costs far more per draw than the code under test per domain)
 
-def _name():
-    by_class = st.sampled_from(sorted(CLASSES)).flatmap(lambda key: st.sampled_from(CLASSES[key]))
-    frequent = st.sampled_from(["PKS_KS", "PKS_AT", "AMP-binding", "Condensation_LCL", "ACP", "PCP", "PKS_KR",
-                                "Thioesterase", "PKS_PP", "Trans-AT_docking", "LPG_synthase_C", "Beta_elim_lyase",
-                                "CAL_domain", "Epimerization"])
-    return st.one_of(st.sampled_from(ALL_NAMES), by_class, frequent)
+_FREQUENT = ("PKS_KS", "PKS_AT", "AMP-binding", "Condensation_LCL", "ACP", "PCP", "PKS_KR", "Thioesterase", "PKS_PP",
+             "Trans-AT_docking", "LPG_synthase_C", "Beta_elim_lyase", "CAL_domain", "Epimerization")
 
 
-@st.composite
-def _internal(draw):
-    """ internal hits of a PKS_KS domain """
-    choice = draw(st.integers(0, 9))
-    if choice <= 1:
-        return []
-    if choice <= 4:
-        hit = {"id": "Trans-AT-KS"}
-        if draw(st.booleans()):
-            hit["in"] = [{"id": draw(st.sampled_from(["bOH", "DB", "ST", "a-Me_OH"]))}]
-        return [hit]
-    if choice <= 8:
-        return [{"id": draw(st.sampled_from(KS_SUBTYPES))}]
-    return [{"id": draw(st.sampled_from(KS_SUBTYPES))}, {"id": draw(st.sampled_from(KS_SUBTYPES))}]
+def _weighted_names() -> tuple:
+    """ a third uniform over all names, a third uniform over classes, a third the names the rules single out """
+    total = 1
+    for group in CLASSES.values():
+        total = total * len(group) // _gcd(total, len(group))
+    names = []
+    for group in CLASSES.values():
+        for name in group:
+            names.extend([name] * (total // len(group)))          # every class weighs `total`
+    per_class = total * len(CLASSES)
+    uniform = [name for name in ALL_NAMES for _ in range(max(1, per_class // len(ALL_NAMES)))]
+    frequent = [name for name in _FREQUENT for _ in range(max(1, per_class // len(_FREQUENT)))]
+    return tuple(names + uniform + frequent)
 
 
-@st.composite
+def _gcd(a: int, b: int) -> int:
+    while b:
+        a, b = b, a % b
+    return a
+
+
+_NAMES = st.sampled_from(_weighted_names())
+_INTERNALS = st.sampled_from(
+    [[]] * 4
+    + [[{"id": "Trans-AT-KS"}]] * 4
+    + [[{"id": "Trans-AT-KS", "in": [{"id": sub}]}] for sub in ("bOH", "DB", "ST", "a-Me_OH")]
+    + [[{"id": sub}] for sub in KS_SUBTYPES] * 2
+    + [[{"id": "Trans-AT-KS"}, {"id": "Modular-KS"}], [{"id": "Iterative-KS"}, {"id": "Hybrid-KS"}]])
+_EXTRAS = st.sampled_from(NON_MODULE + SPECIAL)
+
+
 def _named(draw, name: str) -> dict:
     dom = {"id": name}
     if name == "PKS_KS":
-        internal = draw(_internal())
+        internal = draw(_INTERNALS)
         if internal:
             dom["in"] = internal
     return dom
 
 
-@st.composite
 def _token(draw, token: str) -> dict:
     dom = token_domain(token, 0)
-    dom.pop("s")
-    dom.pop("e")
-    if token == "KS" and draw(st.integers(0, 3)) == 0:
-        internal = draw(_internal())
-        if internal:
-            dom["in"] = internal
+    del dom["s"], dom["e"]
     return dom
 
 
-@st.composite
 def _uniform_string(draw, max_len: int = 14) -> list:
-    names = draw(st.lists(_name(), min_size=0, max_size=max_len))
-    return [draw(_named(name)) for name in names]
+    return [_named(draw, name) for name in draw(st.lists(_NAMES, min_size=0, max_size=max_len))]
 
 
-@st.composite
 def _mutated(draw, tokens) -> list:
-    """ a token tuple as domains, with an occasional drop / insert / swap of the class representative """
+    """ a token tuple as domains, with an occasional drop / insert / other name of the same class / other subtype """
     doms = []
-    for token in tokens:
-        roll = draw(st.integers(0, 19))
+    rolls = draw(st.lists(st.integers(0, 24), min_size=len(tokens), max_size=len(tokens)))
+    for token, roll in zip(tokens, rolls):
         if roll == 0:
             continue
         if roll == 1:
-            doms.append(draw(_named(draw(_name()))))
-        dom = draw(_token(token))
-        if roll == 2 and ":" not in token and "in" not in dom:
-            group = CLASSES[CLASS_OF[dom["id"]]]
-            dom = draw(_named(draw(st.sampled_from(group))))
+            doms.append(_named(draw, draw(_NAMES)))
+        dom = _token(draw, token)
+        if roll == 2:
+            dom = _named(draw, draw(st.sampled_from(CLASSES[CLASS_OF[dom["id"]]])))
         doms.append(dom)
     return doms
 
 
-@st.composite
 def _templated_string(draw, max_modules: int = 4) -> list:
     doms = []
     for _ in range(draw(st.integers(1, max_modules))):
-        roll = draw(st.integers(0, 9))
-        if roll <= 6:
-            doms.extend(draw(_mutated(draw(st.sampled_from(FULL_TEMPLATES)))))
-        elif roll == 7:
-            doms.extend(draw(_mutated(draw(st.sampled_from(HEADS)))))
-        elif roll == 8:
-            doms.extend(draw(_mutated(draw(st.sampled_from(TAILS)))))
+        roll = draw(st.integers(0, 15))
+        if roll <= 10:
+            doms.extend(_mutated(draw, draw(st.sampled_from(FULL_TEMPLATES))))
+        elif roll == 11:
+            doms.extend(_mutated(draw, draw(st.sampled_from(HEADS))))
+        elif roll == 12:
+            doms.extend(_mutated(draw, draw(st.sampled_from(TAILS))))
+        elif roll == 13:
+            doms.extend(_uniform_string(draw, 3))
         else:
-            doms.extend(draw(_uniform_string(3)))
-        if draw(st.integers(0, 7)) == 0:
-            doms.append({"id": draw(st.sampled_from(NON_MODULE + SPECIAL))})
+            doms.extend(_mutated(draw, draw(st.sampled_from(FULL_TEMPLATES))))
+            doms.append({"id": draw(_EXTRAS)})
     return doms
 
 
-@st.composite
 def _positioned(draw, doms: list, name: str, allow_disorder: bool = True) -> dict:
-    """ start positions by construction: increasing, rarely equal; input order rarely shuffled """
-    pos = draw(st.integers(0, 40))
+    """ start positions by construction: increasing, in one gene in ten some equal; input order rarely shuffled """
+    count = len(doms)
+    mode = draw(st.integers(0, 19)) if allow_disorder and count > 1 else 19
+    gaps = draw(st.lists(st.integers(0 if mode <= 1 else 1, 3 if mode <= 1 else 150), min_size=count, max_size=count))
+    pos = 5
     out = []
-    ties = allow_disorder and draw(st.integers(0, 9)) == 0
-    for dom in doms:
-        gap = draw(st.integers(1, 150))
-        if ties and draw(st.integers(0, 3)) == 0:
-            gap = 0
+    for dom, gap in zip(doms, gaps):
         pos += gap
-        size = draw(st.integers(1, 120))
-        out.append(dict(dom, s=pos, e=pos + size))
-    if allow_disorder and len(out) > 1 and draw(st.integers(0, 9)) == 0:
+        out.append(dict(dom, s=pos, e=pos + 20 + (gap * 37 + len(out) * 11) % 90))
+    if mode in (2, 3):
         out = draw(st.permutations(out))
     return {"name": name, "doms": list(out)}
 
@@ -1028,42 +1064,41 @@ def _positioned(draw, doms: list, name: str, allow_disorder: bool = True) -> dic
 def gene_specs(draw):
     kind = draw(st.sampled_from(["uniform", "template", "template", "short"]))
     if kind == "uniform":
-        doms = draw(_uniform_string())
+        doms = _uniform_string(draw)
     elif kind == "short":
-        doms = draw(_uniform_string(5))
+        doms = _uniform_string(draw, 5)
     else:
-        doms = draw(_templated_string())[:14]
-    return {"gene": draw(_positioned(doms, "g0")), "kind": kind}
+        doms = _templated_string(draw)[:14]
+    return {"gene": _positioned(draw, doms, "g0"), "kind": kind}
 
 
-@st.composite
 def _pair_strings(draw):
     """ (upstream domains, downstream domains, kind) in transcription order """
     kind = draw(st.sampled_from(["uniform", "cut", "cut", "head_tail", "head_tail", "templates"]))
     if kind == "uniform":
-        return draw(_uniform_string(8)), draw(_uniform_string(8)), kind
+        return (_uniform_string(draw, 8) or [{"id": "PKS_KR"}]), (_uniform_string(draw, 8) or [{"id": "ACP"}]), kind
     if kind == "templates":
-        return draw(_templated_string(2)), draw(_templated_string(2)), kind
+        return _templated_string(draw, 2), _templated_string(draw, 2), kind
     if kind == "cut":
         template = draw(st.sampled_from(FULL_TEMPLATES))
         cut = draw(st.integers(1, len(template) - 1))
         head, tail = template[:cut], template[cut:]
     else:
         head, tail = draw(st.sampled_from(HEADS)), draw(st.sampled_from(TAILS))
-    up = draw(_mutated(head))
-    down = draw(_mutated(tail))
+    up = _mutated(draw, head)
+    down = _mutated(draw, tail)
     roll = draw(st.integers(0, 9))
     if roll <= 2:
-        down.append(draw(_token("KR")))
+        down.append(_token(draw, "KR"))
     if roll in (2, 3, 4):
-        down.extend(draw(_templated_string(1)))
+        down.extend(_templated_string(draw, 1))
     elif roll == 5:
-        down.extend(draw(_uniform_string(3)))
+        down.extend(_uniform_string(draw, 3))
     before = draw(st.integers(0, 9))
     if before <= 2:
-        up = draw(_templated_string(2)) + up
+        up = _templated_string(draw, 2) + up
     elif before == 3:
-        up = draw(_uniform_string(3)) + up
+        up = _uniform_string(draw, 3) + up
     elif before == 4:
         up = [{"id": draw(st.sampled_from(OTHER + SPECIAL + NON_MODULE))}] + up
     return up, down, kind
@@ -1071,11 +1106,11 @@ def _pair_strings(draw):
 
 @st.composite
 def pair_specs(draw):
-    up, down, kind = draw(_pair_strings())
+    up, down, kind = _pair_strings(draw)
     strands = draw(st.sampled_from([[1, 1]] * 5 + [[-1, -1]] * 4 + [[1, -1], [-1, 1]]))
     # on the reverse strand the upstream gene is the one with the higher coordinates
     first, second = (down, up) if strands[1] == -1 else (up, down)
-    return {"genes": [draw(_positioned(first, "g0")), draw(_positioned(second, "g1"))], "strands": strands,
+    return {"genes": [_positioned(draw, first, "g0"), _positioned(draw, second, "g1")], "strands": strands,
             "kind": kind}
 
 
@@ -1086,24 +1121,23 @@ def pipeline_specs(draw):
     strands = [strand] * count
     if draw(st.integers(0, 5)) == 0:
         strands[draw(st.integers(0, count - 1))] = -strand
-    chain = []          # in transcription order
-    up, down, kind = draw(_pair_strings())
-    chain.extend([up, down])
+    up, down, kind = _pair_strings(draw)
+    chain = [up, down]          # in transcription order
     while len(chain) < count:
         roll = draw(st.integers(0, 11))
         if roll == 0:
             chain.append([])
         elif roll <= 4:
-            chain.append(draw(_templated_string(2)))
+            chain.append(_templated_string(draw, 2))
         else:
             # continue the chain: the last gene gets a head appended, the new gene starts with a tail
-            chain[-1] = chain[-1] + draw(_mutated(draw(st.sampled_from(HEADS))))
-            chain.append(draw(_mutated(draw(st.sampled_from(TAILS)))) + draw(_templated_string(1)))
+            chain[-1] = chain[-1] + _mutated(draw, draw(st.sampled_from(HEADS)))
+            chain.append(_mutated(draw, draw(st.sampled_from(TAILS))) + _templated_string(draw, 1))
     if draw(st.integers(0, 15)) == 0:
         chain[draw(st.integers(0, count - 1))] = []
     if strand == -1:
         chain.reverse()
-    genes = [draw(_positioned(doms[:12], f"g{i}", allow_disorder=False)) for i, doms in enumerate(chain)]
+    genes = [_positioned(draw, doms[:12], f"g{i}", allow_disorder=False) for i, doms in enumerate(chain)]
     return {"genes": genes, "strands": strands, "kind": kind}
 
 
@@ -1114,7 +1148,7 @@ def run(ctx) -> None:
     ctx.enum("gene_enum", enum_genes(ctx.pick(3, 4)), shards=shards)
     ctx.enum("pair_enum", enum_pairs(ctx.thorough), shards=shards)
     ctx.enum("pipeline_enum", enum_pipeline(ctx.thorough), shards=shards)
-    rand_shards = ctx.pick(4, 16)
+    rand_shards = ctx.pick(8, 16)
     ctx.hyp("gene", gene_specs(), max_examples=ctx.pick(3000, 50000), shards=rand_shards)
     ctx.hyp("pair", pair_specs(), max_examples=ctx.pick(3000, 50000), shards=rand_shards)
     ctx.hyp("pipeline", pipeline_specs(), max_examples=ctx.pick(1000, 20000), shards=rand_shards)
